@@ -375,7 +375,10 @@ def creator_case(draw, tier="quick"):
     off = st.sampled_from([0.0, 0.0, 0.25, 0.5])
     bbox = [lons[j0] - draw(off), lats[i0] - draw(off), lons[j1] + draw(off), lats[i1] + draw(off)]
     start = dtm.date(draw(st.sampled_from([2019, 2020, 2021])), draw(st.integers(1, 12)), draw(st.integers(1, 28)))
-    ndays = draw(st.one_of(st.integers(1, 365), st.sampled_from([1, 7, 28, 31, 364, 365, 90])))
+    ndays = draw(st.one_of(st.integers(1, 365), st.sampled_from([1, 1, 2, 7, 28, 31, 364, 365, 90])))
+    if draw(st.integers(0, 5)) == 0:
+        i1, j1 = i0, j0  # a box holding a single grid cell
+        bbox = [lons[j0] - draw(off), lats[i0] - draw(off), lons[j0] + draw(off), lats[i0] + draw(off)]
     end = start + dtm.timedelta(days=ndays)
     year = draw(st.sampled_from([2000, 2018, 1999]))
     mid_month = draw(st.booleans())
